@@ -5,6 +5,7 @@ from __future__ import annotations
 import ast
 import json
 import os
+import re
 import time
 from dataclasses import dataclass, field
 
@@ -27,7 +28,7 @@ class Finding:
     path: list[str] = field(default_factory=list)
 
     def key(self) -> tuple:
-        return (self.prop, self.rule, self.construct, self.statement)
+        return (self.prop, self.rule, self.construct, abstract_private(self.statement))
 
     def to_json(self) -> dict:
         return {
@@ -39,6 +40,16 @@ class Finding:
             "message": self.message,
             "path": self.path,
         }
+
+
+_PRIVATE = re.compile(r"(?<![A-Za-z0-9_])_[a-z][A-Za-z0-9_]*")
+
+
+def abstract_private(statement: str) -> str:
+    """Findings are matched against known_findings.json with private
+    identifiers abstracted, so renaming a private helper does not turn a
+    recorded finding into a new one."""
+    return _PRIVATE.sub("_P", statement or "")
 
 
 def load_known() -> dict:
@@ -111,13 +122,13 @@ class Check:
     # ---------------------------------------------------------------- output
     def unlisted(self) -> list:
         """Findings that are not recorded in known_findings.json."""
-        keys = {(k["property"], k["rule"], k["construct"], k["statement"]) for k in load_known().get("findings", [])}
+        keys = {(k["property"], k["rule"], k["construct"], abstract_private(k["statement"])) for k in load_known().get("findings", [])}
         return [f for f in self.findings if f.key() not in keys]
 
     def finish(self, write_evidence: bool = True, quiet: bool = False) -> int:
         known = load_known()
         known_keys = {
-            (k["property"], k["rule"], k["construct"], k["statement"]): k
+            (k["property"], k["rule"], k["construct"], abstract_private(k["statement"])): k
             for k in known.get("findings", [])
         }
         new: list[Finding] = []
